@@ -25,8 +25,31 @@
 (* are the fields of that record.                                           *)
 (*                                                                         *)
 (* The child process is abstracted to its life (none / running / exiting =  *)
-(* told or forced to go, not yet reaped / reaped) plus "a forked grandchild *)
-(* is alive"; real time to the order of the steps of the escalation.        *)
+(* told or forced to go, not yet reaped / waited = Wait returned / reaped)  *)
+(* plus "a forked grandchild is alive"; real time to the order of the steps *)
+(* of the escalation.                                                       *)
+(*                                                                         *)
+(* Variables (fields of the state record):                                  *)
+(*   kind, beh, hold   task kind, child behaviour, event-loop habit         *)
+(*   launched, active  LAUNCH handled; task is in state.activeTasks         *)
+(*   exec              "ok" | "panicked" (a goroutine without recover died) *)
+(*   timer             doLaunch's 200 ms RUNNING timer is pending           *)
+(*   cmd, ps, rst      t.taskCmd != nil; taskCmd.ProcessState (nil /        *)
+(*                     exited / signaled); reaper goroutine has read        *)
+(*                     t.taskCmd (pending / done)                           *)
+(*   child, how, grand life of the child, how it went, forked grandchild    *)
+(*   pend, rfin        pendingFinalTaskStateCh; final state the reaper took *)
+(*   sent, procd       statuses handed to the event loop, how many of them  *)
+(*                     it has processed                                     *)
+(*   btt               BASIC_TASK_TERMINATED device events sent             *)
+(*   hs                request handler goroutines in flight [r, pc, ...]    *)
+(*   rpc, lpc, dev     controllable: t.rpc (nil / up), launch goroutine pc, *)
+(*                     OCC state of the device                              *)
+(*   rel, vstart       driver let the child exit; a start was answered      *)
+(*   skDone, killAt    a stop/kill was carried out; from which status on    *)
+(*                     FAILED contradicts a kill                            *)
+(*   panBy, termBy, doneBy, killBy, closeBy   which request to blame        *)
+(*   nreq, cnt         requests issued; delivered per type                  *)
 (***************************************************************************)
 EXTENDS Naturals, Sequences, FiniteSets
 
@@ -50,7 +73,6 @@ Requests == {"CONFIGURE", "START", "STOP", "Trigger", "Kill"}
 NoReq == [r |-> "none", inst |-> "none", nth |-> 0]
 
 Terminal(x) == x \in {"FINISHED", "FAILED", "KILLED"}
-Append1(q, x) == Append(q, x)
 RemoveAt(q, i) == [j \in 1..(Len(q) - 1) |-> IF j < i THEN q[j] ELSE q[j + 1]]
 
 (* ----- the state as a record ----- *)
